@@ -41,6 +41,12 @@ def coverage_of(run, prop, select_case, tier):
     for res in run["modes"].values():
         variants |= set(res["hits"])
     nontrivial = len({json.dumps([c["op"], c["a"], c["b"], c["p"]]) for c in cases if c["exp"][0] != "undef"})
+    disp = {}
+    for res in run["modes"].values():
+        for k, v in res.get("dispatch", {}).items():
+            disp[k] = disp.get(k, 0) + v
+    unexecuted = sorted(k for k, v in disp.items() if v == 0)
+    modules_zero = sorted({k.split(":")[0] for k in disp} - {k.split(":")[0] for k, v in disp.items() if v})
     samples = [cases[i] for i in range(0, len(cases), max(1, len(cases) // 3))][:3]
     return {
         "states": run["stats"]["distinct"],
@@ -57,6 +63,10 @@ def coverage_of(run, prop, select_case, tier):
         "implementation_calls": calls,
         "comparisons": compared,
         "distinct_op_signature_variants_executed": len(variants),
+        "compute_layer_dispatch_variants_total": len(disp),
+        "compute_layer_dispatch_variants_executed": len(disp) - len(unexecuted),
+        "compute_layer_dispatch_variants_not_executed_sample": unexecuted[:12],
+        "compute_modules_never_executed": modules_zero,
         "exhaustive": False,
         "checker_cmd": "java -cp tla2tools.jar tlc2.TLC -config GEN(Cases) spec/Cases.tla ; harness/vverif/algebra.py replay",
         "trusted_base": TRUSTED,
